@@ -1,4 +1,5 @@
 import MlModel.Lemmas.PrefetchViews
+import MlModel.Lemmas.PrefetchOld
 /-!
 # A configuration of the server LTS without enabled step, for any number of concurrent requests
 
@@ -47,15 +48,17 @@ inductive Stuck (c : Cfg) (tid : Queue.Tid) (t : Thread) : Prop where
   /-- the server thread, parked in `run_until_shutdown`: not notified, and nobody has requested a shutdown -/
   | idleMain (hprog : t.prog = .main) (hpc : t.pc = .mnWake) (hn : tid ∉ c.sh.shutNotified)
       (hf : c.sh.shutdownRequested = false)
-  /-- a prefetch thread parked (not notified) in `put` on a queue whose enqueueing has not ended: nobody has stopped
-  that generator, it has not failed and is not exhausted -/
+  /-- the prefetch thread of the CURRENT generator (`self._generator`, the newest one), parked (not notified) in
+  `put` on its bounded queue, whose enqueueing has not ended: nobody has stopped that generator, it has not failed and
+  is not exhausted -/
   | parkedProducer (hprog : t.prog = .producer t.g) (hpc : t.pc = .prod) (hqpc : t.qt.pc = .pWake)
+      (hgen : c.sh.generator = some t.g)
       (q : Queue.Shared) (hq : c.sh.qs[t.g]? = some q) (hnd : q.enqueueDone = false)
       (hsr : q.stopRequested = false) (hex : q.exhausted = false) (hfull : q.cap ≠ 0)
 
 theorem multi_dead {c : Cfg} (hG : GInv c) (hI : IInv c) (hU : UInv c) (hS : SInv c) (hL : LkInv c) (hT : StInv c)
-    (hV : VInv c) (hdead : ∀ tid, step c tid = none) (tid : Queue.Tid) (t : Thread) (ht : c.ths[tid]? = some t) :
-    t.pc = .done ∨ Stuck c tid t := by
+    (hV : VInv c) (hO : OInv c) (hdead : ∀ tid, step c tid = none) (tid : Queue.Tid) (t : Thread)
+    (ht : c.ths[tid]? = some t) : t.pc = .done ∨ Stuck c tid t := by
   have hsh := fun j u hu => dead_shape hG hI hU hL hT hdead j u hu
   -- a producer thread is at one of its three program points
   have hprodpc : ∀ (j : Queue.Tid) (u : Thread) (k : Nat), c.ths[j]? = some u → u.prog = .producer k →
@@ -278,7 +281,14 @@ theorem multi_dead {c : Cfg} (hG : GInv c) (hI : IInv c) (hU : UInv c) (hS : SIn
             | true =>
               have h5 : q.enqueueDone = true := hlive.base.i3 hs
               rw [h5] at hnd; cases hnd
-          exact .parkedProducer hprP hpc (prodWake_pWake h4) q hq hnd' hsr hex
+          have hgen : c.sh.generator = some t.g := by
+            cases hg : decide (c.sh.generator = some t.g) with
+            | true => exact of_decide_eq_true hg
+            | false =>
+              rcases hO t.g q hq (of_decide_eq_false hg) with h5 | h5
+              · rw [hsr] at h5; cases h5
+              · rw [hex] at h5; cases h5
+          exact .parkedProducer hprP hpc (prodWake_pWake h4) hgen q hq hnd' hsr hex
             (Queue.XOK_cap (hlive.base.xok t.qt (List.mem_of_getElem? hx)) h4)
 
 /-- threads keep their index and their program -/
